@@ -165,6 +165,16 @@ def lib_frame_innermost(tb):
   return '/pgverif/' not in fn and ('pyglove' in fn)
 
 
+def caused_by_timeout(e):
+  seen = 0
+  while e is not None and seen < 50:
+    if isinstance(e, CaseTimeout):
+      return True
+    e = e.__cause__ or e.__context__
+    seen += 1
+  return False
+
+
 def run_shard(prop, tier, seed, shard, nshards, params, only_index=None):
   mod = load_module(prop)
   ctx = Ctx(prop, tier, seed, shard, nshards, params,
@@ -177,7 +187,7 @@ def run_shard(prop, tier, seed, shard, nshards, params, only_index=None):
     n = mod.cases(ctx)
     # Shards partition the case index space: shard s runs i*nshards + s.
     indices = [only_index] if only_index is not None else range(n)
-    case_timeout = int(params.get('case_timeout_s', 120))
+    case_timeout = int(params.get('case_timeout_s', 120 if tier == 'quick' else 900))
     signal.signal(signal.SIGALRM, _on_alarm)
     timeouts = []
     for i in indices:
@@ -189,14 +199,23 @@ def run_shard(prop, tier, seed, shard, nshards, params, only_index=None):
         finally:
           signal.alarm(0)
       except CaseTimeout:
-        timeouts.append(i)
+        # The alarm raises asynchronously, possibly in the middle of a library
+        # scope (between a push and its pop): the state of this process is not
+        # trustworthy any more, the shard ends here (inconclusive).
         ctx.counters['case_timeouts'] += 1
-        if len(timeouts) >= 3:
-          raise HarnessError(f'cases {timeouts} exceeded the {case_timeout}s '
-                             'per-case watchdog')
+        raise HarnessError(f'case {i} exceeded the {case_timeout}s per-case '
+                           'watchdog; shard abandoned')
       except HarnessError:
         raise
       except Exception as e:  # pylint: disable=broad-except
+        if caused_by_timeout(e):
+          # The asynchronous CaseTimeout was replaced by an exception raised
+          # while the library unwound (e.g. a `finally` popping a scope that
+          # had not been pushed yet).
+          ctx.counters['case_timeouts'] += 1
+          raise HarnessError(f'case {i} exceeded the {case_timeout}s per-case '
+                             'watchdog (seen through a secondary exception); '
+                             'shard abandoned') from e
         if lib_frame_innermost(e.__traceback__):
           # The library raised where the harness expected no exception at
           # all (every expected exception is caught at the step).
@@ -207,9 +226,6 @@ def run_shard(prop, tier, seed, shard, nshards, params, only_index=None):
           raise
     if hasattr(mod, 'teardown'):
       mod.teardown(ctx)
-    if timeouts:
-      raise HarnessError(f'cases {timeouts} exceeded the {case_timeout}s '
-                         'per-case watchdog')
   except BaseException as e:  # pylint: disable=broad-except
     crash = ''.join(traceback.format_exception(e))[-6000:]
   res = ctx.result()
